@@ -3,7 +3,7 @@ import PsModel.Model.C12
 import PsModel.Spec.C12
 /-! line-protocol front end of the C12 model
 
-`C12 (life legacy|new (SVC…) (OP…))` → `ok model=(STEP…) spec=(STEP…)`
+`C12 (life legacy|new (SVC…) ((gen (required…) (params…) extra)…) (OP…))` → `ok model=(STEP…) spec=(STEP…)`
   OP   = (define ctx fn|- var gen ((svc resp)…)) | (start ctx (gen…)) | (delete ctx var) | (unload ctx)
        | (obs) | (call svc rr ctxval ((k v)…)) | (scall …: the same call made by a script)
        | (calls svc rr ctxval (((k v)…)…))                                            only these print a STEP;
@@ -77,6 +77,8 @@ def callS : CallOut → Sexp
   | .notFound => .list [.atom "call", .atom "notfound"]
   | .invalid => .list [.atom "call", .atom "invalid"]
   | .lookupError => .list [.atom "call", .atom "keyerror"]
+  | .bindError => .list [.atom "call", .atom "binderror"]
+  | .badResponse => .list [.atom "call", .atom "badresponse"]
   | .ran g kw rr => .list [.atom "call", .list [.atom "ran", sxn g, kwS kw, sxb rr]]
 
 def stateS (univ : List Svc) (st : MState) : Sexp :=
@@ -104,23 +106,34 @@ def sCall (s : SState) (k : Svc) (ctxVal : String) (data : Kw) (rr : Bool) : Cal
     else .ran h.gen ((data.map (·.1) ++ ["trigger_type", "context"]).eraseDups.filterMap
             (fun key => (sKwargs ctxVal data key).map (fun v => (key, v)))) rr
 
-def runM (cfg : Cfg) (univ : List Svc) : MState → List DOp → List Sexp
+def runM (cfg : Cfg) (sigs : List (Nat × Sig)) (univ : List Svc) : MState → List DOp → List Sexp
   | _, [] => []
-  | st, .life op :: r => runM cfg univ (step cfg st op) r
-  | st, .obs :: r => stateS univ st :: runM cfg univ st r
-  | st, .call k rr cv d :: r => callS (callOutcome cfg st.reg k cv d rr) :: runM cfg univ st r
-  | st, .scall k rr cv d :: r => callS (scriptCallOutcome cfg st.reg k cv d rr) :: runM cfg univ st r
+  | st, .life op :: r => runM cfg sigs univ (step cfg st op) r
+  | st, .obs :: r => stateS univ st :: runM cfg sigs univ st r
+  | st, .call k rr cv d :: r => callS (bound sigs <| callOutcome cfg st.reg k cv d rr) :: runM cfg sigs univ st r
+  | st, .scall k rr cv d :: r => callS (bound sigs <| scriptCallOutcome cfg st.reg k cv d rr) :: runM cfg sigs univ st r
   | st, .calls k rr cv ds :: r =>
-    .list (.atom "calls" :: (overlapOutcome cfg st.reg k cv ds rr).map callS) :: runM cfg univ st r
+    .list (.atom "calls" :: (overlapOutcome cfg st.reg k cv ds rr).map (fun o => callS (bound sigs o))) :: runM cfg sigs univ st r
 
-def runS (univ : List Svc) : SState → List DOp → List Sexp
+def runS (sigs : List (Nat × Sig)) (univ : List Svc) : SState → List DOp → List Sexp
   | _, [] => []
-  | s, .life op :: r => runS univ (sStep s op) r
-  | s, .obs :: r => sstateS univ s :: runS univ s r
-  | s, .call k rr cv d :: r => callS (sCall s k cv d rr) :: runS univ s r
+  | s, .life op :: r => runS sigs univ (sStep s op) r
+  | s, .obs :: r => sstateS univ s :: runS sigs univ s r
+  | s, .call k rr cv d :: r => callS (bound sigs <| sCall s k cv d rr) :: runS sigs univ s r
   | s, .scall k rr cv d :: r =>
-    callS (sCall s k cv d (rr || (match sHandler s k with | some h => h.resp == .only | none => false))) :: runS univ s r
-  | s, .calls k rr cv ds :: r => .list (.atom "calls" :: ds.map (fun d => callS (sCall s k cv d rr))) :: runS univ s r
+    callS (bound sigs <| sCall s k cv d (rr || (match sHandler s k with | some h => h.resp == .only | none => false))) :: runS sigs univ s r
+  | s, .calls k rr cv ds :: r => .list (.atom "calls" :: ds.map (fun d => callS (bound sigs <| sCall s k cv d rr))) :: runS sigs univ s r
+
+/-- (gen (required…) (params…) extra) -/
+def sig? (x : Sexp) : Option (Nat × Sig) :=
+  match x with
+  | .list [g, rq, ps, ex] => do
+    let gen ← g.nat?
+    let r ← Sexp.listOf? Sexp.str? rq
+    let p ← Sexp.listOf? Sexp.str? ps
+    let e ← ex.bool?
+    pure (gen, ⟨r, p, e⟩)
+  | _ => none
 
 def ty? : String → Option Ty
   | "context" => some .context | "bool" => some .bool | "int" => some .int | "float" => some .float
@@ -139,14 +152,14 @@ def argsS (as : List Arg) : Sexp := .list (as.map (fun a => .list [.atom a.key, 
 
 def handle (x : Sexp) : String :=
   match x with
-  | .list [.atom "life", .atom sub, us, .list os] =>
-    match Sexp.listOf? Sexp.str? us, Sexp.mapM? dop? os with
-    | some univ, some ops =>
+  | .list [.atom "life", .atom sub, us, .list sg, .list os] =>
+    match Sexp.listOf? Sexp.str? us, Sexp.mapM? sig? sg, Sexp.mapM? dop? os with
+    | some univ, some sigs, some ops =>
       let cfg := if sub == "legacy" then legacyCfg else newCfg
-      let m := Sexp.render (.list (runM cfg univ {} ops))
-      let s := Sexp.render (.list (runS univ [] ops))
+      let m := Sexp.render (.list (runM cfg sigs univ {} ops))
+      let s := Sexp.render (.list (runS sigs univ [] ops))
       s!"ok model={m} spec={s}"
-    | _, _ => "err parse"
+    | _, _, _ => "err parse"
   | .list [.atom "split", .atom en, .atom tc, tg, .atom ent, as] =>
     match entry? en, resp? tg, Sexp.listOf? arg? as with
     | some e, some target, some args =>
